@@ -44,9 +44,11 @@ Definition c14_extent (p : c14_pattern) (dyn : list Z) (r : nat) : Z :=
 (* as_array(): all extents in order *)
 Definition c14_extents_list (p : c14_pattern) (dyn : list Z) : list Z :=
   map (c14_extent p dyn) (seq 0 (length p)).
-(* converting constructor extents(const extents<I,e...>& other): init_dynamic_extents<rank>(as_array(other)) *)
+(* converting constructor extents(const extents<I,e...>& other): init_dynamic_extents<sizeof...(e)>(as_array(other)),
+   i.e. the N-values constructor path (with its `if constexpr (N == rank_dynamic())` dispatch) applied to
+   the full list of the source's extents; p' = target pattern, (p, dyn) = source object *)
 Definition c14_extents_convert (p' p : c14_pattern) (dyn : list Z) : list Z :=
-  c14_init_dyn_all p' (c14_extents_list p dyn).
+  c14_extents_ctor p' (c14_extents_list p dyn).
 (* operator==: same rank and all extents equal *)
 Definition c14_extents_eqb (a b : list Z) : bool :=
   Nat.eqb (length a) (length b) && forallb (fun ab => fst ab =? snd ab) (combine a b).
